@@ -738,7 +738,7 @@ func TestC09_GridOffsets(t *testing.T) {
 
 // hostileValues: what an attribute or a text node that code may read as a number, a time, a URI or a flag can hold.
 var hostileValues = []string{"", " ", "-1", "-0", "+1", "-2147483649", "2147483648", "-9223372036854775808", "9223372036854775807", "4611686018427387904", "99999999999999999999",
-	"1e9", "0x7fffffff", "NaN", "true", "1", "2.0", "urn:x", "010", "\u023a#", "\u023a\u023a\u023a\u023a\u023a#sha1", "http://www.w3.org/2000/09/xmldsig/\u023a\u023a\u023a\u023a\u023a\u023a\u023a#sha256", "\u0130\u1e9e\u01c5\ufb01#", "http://www.w3.org/2001/04/xmlenc#SHA256", "0001-01-01T00:00:00Z", "9999-12-31T23:59:59Z", "2030-03-01T12:00:00+99:99", strings.Repeat("9", 400), strings.Repeat("A", 9000)}
+	"1e9", "0x7fffffff", "NaN", "true", "1", "2.0", "urn:x", "010", "\u023a#", "\u023a\u023a\u023a\u023a\u023a#sha1", "http://www.w3.org/2000/09/xmldsig/\u023a\u023a\u023a\u023a\u023a\u023a\u023a#sha256", "\u0130\u1e9e\u01c5\ufb01#", "http://www.w3.org/2001/04/xmlenc#SHA256", "#key[1]", "#o'brien", "#a/b[c", "#//*", "#[@x='", "#\"q\"", "#a|b", "#*", "#..", "0001-01-01T00:00:00Z", "9999-12-31T23:59:59Z", "2030-03-01T12:00:00+99:99", strings.Repeat("9", 400), strings.Repeat("A", 9000)}
 
 // richBases: unsigned messages that carry EVERY optional element and attribute the decoders know.
 func richBases() []*etree.Document {
